@@ -156,8 +156,20 @@ fn run_multi(case: &Value, evs: &[Ev], stop: bool, nwin: usize, seed: u64, timeo
     let ncoord = if case["coord"].as_bool().unwrap_or(true) { 1 } else { 0 };
     verif_hooks::reset();
     verif_hooks::set_schedule_seed(seed);
+    // "lagging coordinator" schedule: the coordinator is held at its yield points (hook `hold_sites`, sites 3-4) until
+    // every event has been pushed, so all window results queue up in the result channel and are taken as one batch
+    let hold_coord = case["hold_coord"].as_bool().unwrap_or(false) && ncoord == 1;
+    if hold_coord {
+        verif_hooks::hold_sites((1 << 3) | (1 << 4));
+    }
     let sink: Arc<Mutex<Vec<Row>>> = Arc::new(Mutex::new(Vec::new()));
-    let mut engine = build(case, OperationMode::MultiThread, Arc::clone(&sink))?;
+    let mut engine = match build(case, OperationMode::MultiThread, Arc::clone(&sink)) {
+        Ok(e) => e,
+        Err(e) => {
+            verif_hooks::hold_sites(0);
+            return Err(e);
+        }
+    };
     let mut prod = seed ^ 0x1111_2222;
     for e in evs.iter() {
         for t in engine.parse_data(&e.nt) {
@@ -180,6 +192,7 @@ fn run_multi(case: &Value, evs: &[Ev], stop: bool, nwin: usize, seed: u64, timeo
     if stop {
         engine.stop();
     }
+    verif_hooks::hold_sites(0);
     // dropping the engine closes every content channel and the engine's own result sender: the workers drain and
     // leave their loops, then the coordinator sees the result channel disconnected and leaves its loop
     drop(engine);
